@@ -12,6 +12,11 @@
  *   G <i> <k> <expr>   `foreach` whose body calls get(obj, k) right after item number i (from 0; an exception of that get is
  *                      swallowed): prints  O g=[items] ge=<term|exc|fuel>
  *   Z <k> <expr>       zip(x, …, x): ONE object x = <expr>, k times (1 <= k <= 6) in a Zip; walked as W (without get)
+ *   M <k> <expr>       mem(obj, $I(k)) on a Range, a Slice, a Filter or a Map whose elements are Ints (Range_Mem, Slice_Mem,
+ *                      Filter_Mem, Map_Mem of src/Iter.c): prints  O mem=<1|0|exc>;  oracle: k occurs in the defined sequence
+ *   R <a> <b> <c>      the Range (a, b, c), any int64_t values, walked as W without get (the model side is the Range on int64_t);
+ *                      a walk that needs a value outside int64_t (one step beyond the last element included) is UB: the worker
+ *                      dies under UBSan (`O crash`)
  *   expr ::= (array v*) | (list v*) | (tuple id*) | (table s*)  s = `.` | key   — slot array written white-box
  *          | (tree S)  S = `.` | (S k S)  — nodes linked white-box | (rtree k*)  — built with set()
  *          | (range a*) | (slice E a*) | (reverse E) | (zip E*) | (enum E) | (filter E m r) | (map E a b)     a = int | `_`
@@ -46,7 +51,13 @@
  *   kf-c11-zip-back     backward walk over / get at a negative index of a Zip of inputs of unequal length (F12)
  *   kf-c11-get-walk     `G`: get on a Range / Map / Zip / enumerate (or a Slice over one) during a walk overwrites its cursor
  *   kf-c11-zip-alias    `Z`: one Range / Map / Zip object (or a Slice / Filter over one) several times in a Zip shares one cursor
- *   c11-forward c11-backward c11-len c11-get c11-get-walk c11-crash c11-construct   anything else
+ *   kf-c11-slice-mem    `M` on a Slice with a key that is NOT in it: Slice_Mem loops `while (curr)`, Terminal is not NULL: it is
+ *                       compared with the key (stray ValueError) instead of ending the loop — never answers false
+ *   kf-c11-range-mem    `M` on a Range with a NEGATIVE key: Range_Mem normalises the key as if it were an index (key + len) and
+ *                       tests that value (the signature is given only when the answer is the membership of key + len)
+ *   kf-c11-range-overflow  a walk over a Range that needs a value outside int64_t: Range_Iter_Next / _Prev add the step BEFORE
+ *                       they compare (one step beyond the last element), Range_Len subtracts start from stop-1
+ *   c11-forward c11-backward c11-len c11-get c11-get-walk c11-mem c11-crash c11-construct   anything else
  * A deviation carries a kf- signature only where NO theorem covers that walk (the same case analysis as `dirOf` in
  * lean/CelloProofs/Lemmas/IterCompose.lean, per direction): a wrong forward walk of a view over a Zip of unequal inputs, or
  * of a stepped Slice over a Tuple, is c11-forward.
@@ -62,6 +73,7 @@
 #include "common.h"
 #include <sys/mman.h>
 #include <signal.h>
+#include <errno.h>
 
 /* a worker that leaves the protocol is expected to die under the sanitizers: keep its report cheap (no symbolizer) */
 const char* __asan_default_options(void) { return "symbolize=0:fast_unwind_on_fatal=1:print_legend=0:print_summary=0:malloc_context_size=0"; }
@@ -431,9 +443,9 @@ static int cmp_i64(const void* a, const void* b) { int64_t x = *(const int64_t*)
 
 /* Range by definition: step>0: start, start+step, … < stop;  step<0: stop-1, stop-1+step, … >= start;  step 0: nothing */
 static size_t range_positions(int64_t a, int64_t b, int64_t c, int64_t* out, size_t cap) {
-  size_t k = 0;
-  if (c > 0) for (int64_t p = a; p < b && k < cap; p += c) out[k++] = p;
-  if (c < 0) for (int64_t p = b - 1; p >= a && k < cap; p += c) out[k++] = p;
+  size_t k = 0;      /* (the loop variable is wider than int64_t: the reference itself must not overflow) */
+  if (c > 0) for (__int128 p = a; p < (__int128)b && k < cap; p += c) out[k++] = (int64_t)p;
+  if (c < 0) for (__int128 p = (__int128)b - 1; p >= (__int128)a && k < cap; p += c) out[k++] = (int64_t)p;
   return k;
 }
 static int64_t clamp_intended(int64_t a, int64_t n) { if (a < 0) a += n; if (a < 0) a = 0; if (a > n) a = n; return a; }
@@ -547,6 +559,18 @@ static int slice_region_visited(int64_t n, int64_t a, int64_t b, int64_t c, int 
   nv = c > 0 ? range_positions(0, b, -c, vis, CAP + 4) : range_positions(a, n, -c, vis, CAP + 4);
   return same_positions(vis, nv, sel, ns, 1);
 }
+/* a walk over the Range stays inside int64_t (dir 0: forward, 1: backward) — the same conditions as RangeFitsFwd / RangeFitsBwd
+   of lean/Cello/Iter.lean: forward, the value one step beyond the last element; backward, Range_Len's own arithmetic and the value
+   one step before the first element */
+static int fits64(__int128 x) { return x >= (__int128)INT64_MIN && x <= (__int128)INT64_MAX; }
+static int range_fits(Node* n, int dir) {
+  int64_t a, b, c; if (!range_params(n, &a, &b, &c) || c == 0) return 1;
+  __int128 A = a, B = b, C = c, len = (B <= A) ? 0 : (B - 1 - A) / (C > 0 ? C : -C) + 1;
+  if (dir == 0) return C > 0 ? fits64(A + C * len) : (fits64(B - 1) && fits64(B - 1 + C * len));
+  if (!((B <= A) || (fits64(B - 1) && fits64(B - 1 - A) && (C > 0 || fits64(-C))))) return 0;
+  if (len == 0) return 1;
+  return C > 0 ? fits64(A - C) : fits64(B - 1 - C);
+}
 static int tuple_has_dup(Node* n) { for (size_t i = 0; i < n->nv; i++) for (size_t j = 0; j < i; j++) if (n->v[i] == n->v[j]) return 1; return 0; }
 static const char* walk_cause(Node* n, int dir);
 static int absorbs(Node* n, int dir) {
@@ -568,6 +592,7 @@ static const char* walk_cause(Node* n, int dir) {
   const char* c0;
   switch (n->kind) {
     case K_TUPLE: return tuple_has_dup(n) ? "kf-c11-tuple-dup" : NULL;
+    case K_RANGE: return range_fits(n, dir) ? NULL : "kf-c11-range-overflow";
     case K_SLICE: {
       int64_t len = (int64_t)ref_of(n->kid[0]).n, a, b, c; slice_params(n, len, &a, &b, &c);
       if (c == 0) return NULL;
@@ -603,6 +628,7 @@ static int in_object(Node* n) {
   switch (n->kind) { case K_RANGE: case K_ZIP: case K_ENUM: case K_MAP: return 1; case K_SLICE: case K_FILTER: return in_object(n->kid[0]); default: return 0; }
 }
 static Node* zalias;     /* `Z`: the one object that the Zip under test holds several times (NULL otherwise) */
+static int noget;        /* `R`: walks and len only */
 enum { A_FWD, A_BWD, A_LEN, A_GET, A_CRASH, A_CONSTRUCT, A_MUT, A_LINKS, A_GETWALK, A_GETNEG };
 static const char* sig_for(Node* n, int aspect) {
   const char* c0 = NULL;
@@ -779,7 +805,7 @@ static void walk_obj(Node* n, var obj, size_t lineno) {
     else if (glen != ref.n) { snprintf(what, sizeof what, "len = %zu, the definition selects %zu", glen, ref.n); deviation(n, A_LEN, lineno, what); }
   } else if (glen_ok) { snprintf(what, sizeof what, "len = %zu on a type without Len", glen); deviation(n, A_LEN, lineno, what); }
   /* get */
-  if (glen_ok && def_has_get(n) && glen <= CAP && !zalias) {
+  if (glen_ok && def_has_get(n) && glen <= CAP && !zalias && !noget) {
     LP(" get=["); int gbad = 0;
     for (size_t i = 0; i < glen; i++) {
       char b[512];
@@ -856,6 +882,58 @@ static void op_zip_same(Node* e, size_t k, size_t lineno) {
   zalias = e;
   walk_obj(z, obj, lineno);
   zalias = NULL;
+}
+
+/* ------------------------------------------------------------------------------------------------ `M`: mem */
+static int elem_int(Node* n) {
+  switch (n->kind) { case K_ZIP: case K_ENUM: return 0; case K_SLICE: case K_FILTER: return elem_int(n->kid[0]); default: return 1; }
+}
+static int mem_op_kind(Node* n) { return (n->kind == K_RANGE || n->kind == K_SLICE || n->kind == K_FILTER || n->kind == K_MAP) && elem_int(n); }
+static int in_ref(RL* ref, int64_t k) { for (size_t i = 0; i < ref->n; i++) if (ref->v[i].key == k) return 1; return 0; }
+/* answered: 0 / 1, or -1 when mem left the protocol (exception, worker died) */
+static const char* mem_sig(Node* n, int64_t k, int answered, int expected) {
+  const char* c0;
+  if (n->kind == K_RANGE) {
+    RL ref = ref_of(n);
+    if (k < 0 && ref.n < CAP && answered == in_ref(&ref, (int64_t)ref.n + k)) return "kf-c11-range-mem";
+    return "c11-mem";
+  }
+  if ((c0 = walk_cause(n, 0))) return c0;
+  if (n->kind == K_SLICE && !expected && answered < 0) return "kf-c11-slice-mem";
+  return "c11-mem";
+}
+static volatile int gmem;
+static void do_mem(var obj, int64_t k) { gmem = mem(obj, $I(k)) ? 1 : 0; }
+static void op_mem(Node* n, int64_t k, size_t lineno) {
+  static char what[512];
+  nclos_p = nclos_f = 0;
+  var exc; volatile var obj = NULL;
+  V_TRY(exc, obj = build(n));
+  if (exc) { O("construct=%s", v_exc_name(exc)); return; }
+  RL ref = ref_of(n); int expected = in_ref(&ref, k);
+  V_TRY(exc, do_mem(obj, k));
+  int answered = exc ? -1 : gmem;
+  if (answered != expected) {
+    const char* sig = mem_sig(n, k, answered, expected);
+    st_dev++; if (!strncmp(sig, "kf-", 3)) st_kf++;
+    if (exc) snprintf(what, sizeof what, "mem(obj, %lld) raises %s, the defined sequence %s the key", (long long)k, v_exc_name(exc), expected ? "contains" : "does not contain");
+    else snprintf(what, sizeof what, "mem(obj, %lld) = %d, the defined sequence %s the key", (long long)k, answered, expected ? "contains" : "does not contain");
+    X("sig=%s line=%zu what=%s", sig, lineno, what);
+  }
+  if (exc) O("mem=exc"); else O("mem=%d", answered);
+}
+
+/* ------------------------------------------------------------------------------------------------ `R`: a Range of any int64_t values */
+static Node* range_node(const char* l) {
+  char t[3][40]; int used = 0;
+  if (sscanf(l, "%39s %39s %39s %n", t[0], t[1], t[2], &used) < 3 || l[used]) return NULL;
+  Node* n = calloc(1, sizeof(Node)); n->kind = K_RANGE; n->nv = 3; n->v = malloc(3 * sizeof(int64_t)); n->has = malloc(3 * sizeof(int));
+  for (int i = 0; i < 3; i++) {
+    if (!is_int(t[i])) return NULL;
+    errno = 0; n->v[i] = strtoll(t[i], NULL, 10); n->has[i] = 1;
+    if (errno == ERANGE) return NULL;      /* not an int64_t */
+  }
+  return n;
 }
 
 /* ------------------------------------------------------------------------------------------------ `L`: white-box layout */
@@ -967,6 +1045,12 @@ static void worker(char** lines, size_t n, size_t from) {
       if (sscanf(l + 2, "%lld %lld %n", &at, &k, &used) < 2 || at < 0 || !used) O("bad-op");
       else { Node* e = parse_line(l + 2 + used); if (!e) O("bad-op"); else op_get_walk(e, (size_t)at, k, li + 1); }
     }
+    else if (l[0] == 'M' && l[1] == ' ') {
+      long long k; int used = 0;
+      if (sscanf(l + 2, "%lld %n", &k, &used) < 1 || !used) O("bad-op");
+      else { Node* e = parse_line(l + 2 + used); if (!e || !mem_op_kind(e)) O("bad-op"); else op_mem(e, k, li + 1); }
+    }
+    else if (l[0] == 'R' && l[1] == ' ') { Node* e = range_node(l + 2); if (!e) O("bad-op"); else { noget = 1; op_walk(e, li + 1); noget = 0; } }
     else if (l[0] == 'Z' && l[1] == ' ') {
       long long k; int used = 0;
       if (sscanf(l + 2, "%lld %n", &k, &used) < 1 || k < 1 || k > 6 || !used) O("bad-op");
@@ -1011,6 +1095,12 @@ int main(int argc, char** argv) {
     }
     const char* sig = e ? sig_for(e, lines[k][0] == 'G' ? A_GETWALK : A_CRASH) : "c11-crash";
     zalias = NULL;
+    if (lines[k][0] == 'R') { e = range_node(lines[k] + 2); sig = e ? sig_for(e, A_CRASH) : "c11-crash"; }
+    if (lines[k][0] == 'M') {
+      long long key = 0; int used = 0; sscanf(lines[k] + 2, "%lld %n", &key, &used);
+      e = used ? parse_line(lines[k] + 2 + used) : NULL;
+      if (e && mem_op_kind(e)) { RL ref = ref_of(e); sig = mem_sig(e, key, -1, in_ref(&ref, key)); } else sig = "c11-crash";
+    }
     dev++; if (!strncmp(sig, "kf-", 3)) kf++;
     X("sig=%s line=%zu what=the library left the iteration protocol: worker %s %d", sig, k + 1,
       WIFSIGNALED(st) ? "killed by signal" : "exited with status", WIFSIGNALED(st) ? WTERMSIG(st) : WEXITSTATUS(st));
